@@ -11,7 +11,7 @@ for p in sorted(glob.glob(os.path.join(os.path.dirname(os.path.dirname(os.path.a
         fc = (r.get("failing_case") or "")
         kind = fc.split("kind=")[1].split(":")[0] if "kind=" in fc else ""
         got.append("%s %s%s" % (prop, tier or "**not caught**", (" (`%s`)" % kind) if kind else ""))
-    hist = " — " + d["history"].split(".")[0] + "; strengthened, caught now" if d.get("history") else ""
+    hist = (" — " + d["history"]) if d.get("history") else ""
     rows.append("| %s | %s | %s | %s | %s%s |" % (d["id"], d["property"], d["summary"].replace("|", "/").replace("\n", " ")[:260], d["needs"].replace("|", "/").replace("\n", " ")[:200], "; ".join(got), hist))
 print("| seed | property | change (written by a sub-agent that saw only the property text) | needs, to manifest | caught by |")
 print("|---|---|---|---|---|")
